@@ -347,6 +347,14 @@ def make_sandbox(recipe):
         for name in recipe.get("baits", []):
             _write_bait(os.path.join(cmap_abs + "-private", name + ".pickle.gz"))
         os.makedirs(sandbox_dirs(root, recipe)[1] + "-private")
+    # a symbolic link inside CMAP_PATH that leads out of it: `extra/../private/<bait>` looks contained when
+    # normalised lexically, but the file system resolves it to outside/private/<bait>
+    os.makedirs(os.path.join(root, "outside", "sub"))
+    os.makedirs(os.path.join(root, "outside", "private"))
+    for name in recipe.get("baits", []):
+        _write_bait(os.path.join(root, "outside", "private", name + ".pickle.gz"))
+    if not os.path.lexists(os.path.join(cmap_abs, "extra")):
+        os.symlink(os.path.join(root, "outside", "sub"), os.path.join(cmap_abs, "extra"))
     with open(os.path.join(root, "cwd", "note.txt"), "wb") as f:
         f.write(b"cwd file")
     return root
@@ -683,7 +691,7 @@ BENIGN_KINDS = ("benign", "collide")
 BAITS = ["X0", "X1", "X2", "H", "H1", "H2", "P-Q", "to-unicode-X"]
 GOOD = ["Good-H", "Good0-H", "Good1-H", "Good2-H", "to-unicode-Good-H"]
 HOSTILE_KINDS = ["abs", "rel-sibling", "rel-repo", "nul", "dslash", "dot", "long", "toolong", "backslash", "inside",
-                 "prefix-sibling"]
+                 "prefix-sibling", "symlink"]
 FONT_SLOTS = ["enc_name", "enc_stream", "usecmap", "usecmap_simple", "tounicode_name", "regord", "basefont",
               "fontname", "resname"]
 IMAGE_SLOTS = ["xobj", "xobj", "xobj", "form", "name_entry", "inline_name", "inline"]
@@ -730,6 +738,10 @@ def mk_hostile(kind, target, rnd, inside, base):
         return rnd.choice([b"..\\" + t.replace(b"/", b"\\"), b"..\\..\\" + t, b"C:\\" + t.replace(b"/", b"\\")])
     if kind == "prefix-sibling":  # a sibling directory whose name merely starts with the base directory's name
         return b"../{" + base + b"B}-private/" + t.rsplit(b"/", 1)[-1]
+    if kind == "symlink":  # through the symbolic link CMAP_PATH/extra -> outside/sub and back up
+        if base != b"C":
+            return up + b"/" + t
+        return b"extra/../private/" + t.rsplit(b"/", 1)[-1]
     if kind == "inside":
         return inside
     raise ValueError(kind)
